@@ -118,6 +118,8 @@ def rand_knobs(rng, kind):
              base=rng.choice(["min", "zero", "rand"]), two_names=rng.random() < 0.5)
     if kind == "bch":
         k["bc"] = rng.choice([0x07, 0x14, 0x15, 0x1f, 0x20, 0x21, 0x22, 0x23, 0x42])
+    if kind == "cgfx":
+        k["backward"] = rng.random() < 0.4        # payloads / names / TXOBs in front of the referring field (F23)
     return k
 
 
